@@ -143,7 +143,13 @@ def observe_raw(g, ex, entry, text, pos, timeout=0.25, retry=True):
         return f'(exc {type(e).__name__})'
     if st:
         try:
-            return f'(done true {canon(res, ex["classes"])} {p})'
+            kinds = set()
+            c = canon(res, ex["classes"], kinds=kinds)
+            # SPEC: the values of a parse are pieces of the input: bytes for bytes input, str for str input
+            wrong = 'str' if isinstance(text, bytes) else 'bytes'
+            if wrong in kinds:
+                return f'(done true (wrongtype {wrong} {c}) {p})'
+            return f'(done true {c} {p})'
         except ExportError as e:
             return f'(exc export:{e})'
     return f'(done false {p})'
